@@ -1,7 +1,7 @@
 (* ImpFactsSwap.v — sbdf_swap of src/bswap.c as translated into Gen/Prog.v under both build
    configurations: the default one does nothing, the big-endian one (-D__sparc) reverses every
    element in place.  This is what the parameter `swp` of the L1 model stands for. *)
-From Sbdf Require Import Imp Gen.Prog Base BaseFacts ImpFacts ImpFacts7.
+From Sbdf Require Import Imp Gen.Prog Base BaseFacts ImpBase.
 From Coq Require Import ZifyBool.
 Local Open Scope Z_scope.
 Ltac Zify.zify_post_hook ::= Z.div_mod_to_equations.
